@@ -127,19 +127,24 @@ class Abs:
                 self.visit(c, aspect)
             return
         if isinstance(n, (ast.ListComp, ast.GeneratorExp, ast.SetComp, ast.DictComp)):
-            bound = set()
-            for g in n.generators:
-                self.forces.append(("iter", g.iter))
-                self.visit(g.iter, aspect)
-                for t in ast.walk(g.target):
-                    if isinstance(t, ast.Name):
-                        bound.add(t.id)
-                for c in g.ifs:
-                    self.forces.append(c)
-                    self.visit(c, aspect)
             inner = Abs()
             for e in ([n.elt] if not isinstance(n, ast.DictComp) else [n.key, n.value]):
                 inner.visit(e, aspect)
+            bound = set()
+            for g in n.generators:
+                gb = set()
+                for t in ast.walk(g.target):
+                    if isinstance(t, ast.Name):
+                        gb.add(t.id)
+                for c in g.ifs:
+                    self.forces.append(c)
+                    inner.visit(c, aspect)
+                bound |= gb
+                # iterating needs the iterable's static aspect only; its elements flow into the result exactly as far as
+                # the bound variables are used with their full value
+                full = any((b, False) in inner.reads for b in gb)
+                self.forces.append(("iter", g.iter))
+                self.visit(g.iter, aspect or not full)
             for nm, a in inner.reads:
                 if nm not in bound:
                     self.add(nm, a)
@@ -265,8 +270,15 @@ class Skel:
             a = abs_expr(st.iter)
             self.forces(a, out)
             asp = Abs(); asp.visit(st.iter, True)
-            tg = ', '.join(lean_str(t) for t in targets_of(st.target))
-            inner = [f"Stmt.assign [{tg}] {e_code(a)}"] + self.stmts(st.body + st.orelse)
+            tnames = targets_of(st.target)
+            inner = []
+            if (isinstance(st.iter, ast.Call) and ast.unparse(st.iter.func) == "enumerate" and isinstance(st.target, ast.Tuple)
+                    and isinstance(st.target.elts[0], ast.Name)):
+                # the index produced by enumerate depends only on the iterable's length
+                inner.append(f"Stmt.assign [{lean_str(st.target.elts[0].id)}] {e_code(asp)}")
+                tnames = [t for t in tnames if t != st.target.elts[0].id]
+            tg = ', '.join(lean_str(t) for t in tnames)
+            inner += [f"Stmt.assign [{tg}] {e_code(a)}"] + self.stmts(st.body + st.orelse)
             out.append(f"Stmt.forS [] {e_code(asp)} [{', '.join(inner)}]")
             return out
         if isinstance(st, ast.While):
@@ -366,7 +378,8 @@ def generate(repo: str) -> dict:
                 return
             params = fn.args.args + fn.args.kwonlyargs + ([fn.args.vararg] if fn.args.vararg else []) + ([fn.args.kwarg] if fn.args.kwarg else [])
             traced = [p.arg for p in params if p.arg not in ("self", "cls") and staged_param(p.arg, p.annotation) == "traced"]
-            traced += ["self." + f for f, k in cfields.items() if k == "array"]
+            # sub-modules contain array leaves: their VALUE is traced, only their structure (length, shapes, None-ness) is static
+            traced += ["self." + f for f, k in cfields.items() if k in ("array", "module")]
             body = Skel(False).block(fn.body)
             methods.append((cls or "", fn.name, rel, traced, body))
 
